@@ -225,3 +225,41 @@ pub fn with_hooks_ranges<R>(pid: i32, blamed: i32, capture: bool, ranges: Vec<(u
 }
 
 pub fn read_all(mut r: impl Read) -> Vec<u8> { let mut v = Vec::new(); let _ = r.read_to_end(&mut v); v }
+
+// ------------------------------------------------------------------ watchdog
+/// Runs `f` in a forked child (the harness is single-threaded) and returns what it wrote, or
+/// `Err("timeout")` / `Err("died: ..")`.  Used for inputs on which the code under test may hang or abort.
+pub fn run_forked(timeout_ms: u64, f: impl FnOnce() -> String) -> Result<String, String> {
+    let mut fds = [0i32; 2];
+    if unsafe { libc::pipe(fds.as_mut_ptr()) } != 0 { return Err("pipe failed".into()); }
+    let pid = unsafe { libc::fork() };
+    if pid < 0 { return Err("fork failed".into()); }
+    if pid == 0 {
+        unsafe { libc::close(fds[0]); }
+        let s = match crate::common::quiet_catch(std::panic::AssertUnwindSafe(f)) { Ok(s) => s, Err(p) => format!("PANIC: {p}") };
+        let b = s.as_bytes(); let mut off = 0;
+        while off < b.len() { let n = unsafe { libc::write(fds[1], b[off..].as_ptr() as *const libc::c_void, b.len() - off) }; if n <= 0 { break; } off += n as usize; }
+        unsafe { libc::_exit(0); }
+    }
+    unsafe { libc::close(fds[1]); }
+    let start = std::time::Instant::now();
+    let mut out = Vec::new();
+    let mut buf = [0u8; 65536];
+    unsafe { let fl = libc::fcntl(fds[0], libc::F_GETFL); libc::fcntl(fds[0], libc::F_SETFL, fl | libc::O_NONBLOCK); }
+    let mut status = 0i32; let mut done = false;
+    loop {
+        let n = unsafe { libc::read(fds[0], buf.as_mut_ptr() as *mut libc::c_void, buf.len()) };
+        if n > 0 { out.extend_from_slice(&buf[..n as usize]); continue; }
+        if !done { let r = unsafe { libc::waitpid(pid, &mut status, libc::WNOHANG) }; if r == pid { done = true; continue; } }
+        if done && n == 0 { break; }
+        if done { break; }
+        if start.elapsed().as_millis() as u64 > timeout_ms {
+            unsafe { libc::kill(pid, libc::SIGKILL); libc::waitpid(pid, &mut status, 0); libc::close(fds[0]); }
+            return Err("timeout".into());
+        }
+        std::thread::sleep(std::time::Duration::from_micros(300));
+    }
+    unsafe { libc::close(fds[0]); }
+    if libc::WIFSIGNALED(status) { return Err(format!("died: signal {}", libc::WTERMSIG(status))); }
+    Ok(String::from_utf8_lossy(&out).into_owned())
+}
